@@ -1150,6 +1150,8 @@ def install(R):
             r = hook(E, v, key, reverse)
             if r is not None:
                 return r
+        if type(v).__name__ == "SymSet" and key is None and not reverse:
+            return v.sorted_of(E)
         items = E.iterate_concrete(v)
         if key is None and all(deep_conc(x) for x in items):
             try:
@@ -1167,6 +1169,8 @@ def install(R):
     def _list(E, v=()):
         if isinstance(v, SList):
             return v.snapshot()
+        if type(v).__name__ == "SymSeq":
+            return v                    # a lazy sequence is immutable here: list(seq) is the same sequence of elements
         if isinstance(v, _SD):
             return v.keys_list(E)
         return list(E.iterate_concrete(v))
